@@ -354,6 +354,7 @@ impl Error {
     fn into_vec(self) -> Vec<Self> {
         if let ErrorKind::Multiple(errors) = self.kind {
             let locations = self.locations;
+            let span = self.span;
 
             #[cfg(feature = "diagnostics")]
             let children = self.children;
@@ -361,9 +362,13 @@ impl Error {
             errors
                 .into_iter()
                 .flat_map(|error| {
-                    // This is mutated if the diagnostics feature is enabled
-                    #[allow(unused_mut)]
                     let mut error = error.prepend_at(locations.clone());
+
+                    // A child without a span of its own inherits the span of the bundle,
+                    // so that flattening never makes an error less specific than it was.
+                    if error.span.is_none() {
+                        error.span = span;
+                    }
 
                     // Any child diagnostics in `self` are cloned down to all the distinct
                     // errors contained in `self`.
